@@ -98,12 +98,13 @@ class TInfo:
 
 
 class OpRec:
-    __slots__ = ("ref", "name", "arrs", "at", "guard_on", "tensors", "out_ref", "tainted")
+    __slots__ = ("ref", "name", "arrs", "at", "guard_on", "tensors", "out_ref", "tainted", "bases")
 
     def __init__(self, op, at, guard_on):
         self.ref = weakref.ref(op)
         self.name = type(op).__name__
         self.arrs = []  # weakrefs to ndarrays (inputs, then output)
+        self.bases = []  # weakrefs to the base arrays of those (a view may die before the op does)
         self.tensors = []  # weakrefs to input tensors
         self.out_ref = None
         self.at = at
@@ -1444,7 +1445,11 @@ class World:
                     for v in vs:
                         rec.arrs.append(weakref.ref(v.data))
                         rec.tensors.append(weakref.ref(v))
+                        if isinstance(v.data.base, np.ndarray):
+                            rec.bases.append(weakref.ref(v.data.base))
                     rec.arrs.append(weakref.ref(t.data))
+                    if isinstance(t.data.base, np.ndarray):
+                        rec.bases.append(weakref.ref(t.data.base))
                     rec.out_ref = weakref.ref(t)
                     self.oprecs[key] = rec
                     self.probe("op." + rec.name)
